@@ -433,16 +433,23 @@ func fieldAliases(prog *ssa.Program) []string {
 		for _, f := range was {
 			had[f[0]] = true
 		}
+		// (a mutex held by pointer and a mutex held by value guard the same thing: same kind of field)
+		kind := func(t string) string {
+			if t == "*sync.Mutex" || t == "*sync.RWMutex" {
+				return t[1:]
+			}
+			return t
+		}
 		goneByType := map[string][]string{}
 		for _, f := range was {
 			if !has[f[0]] && !strings.HasPrefix(f[0], "()") && f[0] != "=" {
-				goneByType[f[1]] = append(goneByType[f[1]], f[0])
+				goneByType[kind(f[1])] = append(goneByType[kind(f[1])], f[0])
 			}
 		}
 		newByType := map[string][]string{}
 		for _, f := range now {
 			if !had[f[0]] && !strings.HasPrefix(f[0], "()") && f[0] != "=" {
-				newByType[f[1]] = append(newByType[f[1]], f[0])
+				newByType[kind(f[1])] = append(newByType[kind(f[1])], f[0])
 			}
 		}
 		for typ, gone := range goneByType {
